@@ -13,7 +13,8 @@ namespace BfeVerif.C07
 
 /-- **C07 (full strength)**: whatever the cluster configuration, the scripts (transport errors, retry
     decisions, HandleForward verdicts), the schedule of clusterInvoke / FinishReq steps of several
-    requests and the random cross-sub-cluster choices: after every schedule each backend's connNum
+    requests - with health-check events (backends taken out / coming back) at arbitrary points in between -
+    and the random cross-sub-cluster choices: after every schedule each backend's connNum
     equals the number of requests currently assigned to it, is never negative, and is zero once every
     invoked request has finished.  (A schedule is arbitrary, so this covers every prefix.) -/
 theorem C07_balanced (pol : Policy) (cfg : Cfg) (reqs : List ReqSpec) (sched : List Step) (chs : List (List Nat)) :
@@ -174,5 +175,13 @@ example : let g := runSched realPolicy cfg1 [⟨true, true, [], [.goon, .finish]
 example : let g := runSched realPolicy cfg1 [⟨true, true, [], [.finish], some 1⟩] (G.init cfg1 1) [.inv 0, .fin 0] []
     g.conn 0 = 0 ∧ g.conn 1 = 0 := by decide
 example : finChain [.goon, .finish, .panic] finFilters 0 = (1, 2, false) := by decide
+
+/-- health-check events (a backend is taken out and comes back) while a request is in flight on it leave its
+    count alone; the request still releases it afterwards.  `C07_balanced` quantifies over schedules that contain
+    such `up` / `down` steps at arbitrary positions. -/
+example : let g := runSched realPolicy cfg1 [⟨true, true, [], [], none⟩] (G.init cfg1 1) [.inv 0, .down 0, .up 0] []
+    g.conn 0 = 1 ∧ g.conn 1 = 0 := by decide
+example : let g := runSched realPolicy cfg1 [⟨true, true, [], [], none⟩] (G.init cfg1 1) [.inv 0, .down 0, .up 0, .fin 0] []
+    g.conn 0 = 0 ∧ g.conn 1 = 0 := by decide
 
 end BfeVerif.C07
